@@ -47,8 +47,17 @@ CodonInstances == <<
     M("CNFGTR",  3, "conditional", GTRs \o << <<"omega", R(2,1)>> >>, PiCodon, TRUE, TRUE, "small")
 >>
 
-AllInstances == NucInstances \o CodonInstances
-QuickInstances == NucInstances \o <<CodonInstances[1], CodonInstances[3], CodonInstances[5]>>
+(* dinucleotide models (16 states), built by the user from the predicate algebra; three motif-probability forms *)
+DinucWt(w) == 1 + ((NIdx(w[1]) + 3 * NIdx(w[2])) % 4)
+DinucTot == IntSum(States(2), [w \in States(2) |-> DinucWt(w)])
+PiDinuc == [w \in States(2) |-> R(DinucWt(w), DinucTot)]
+DinucInstances == <<
+    M("user:Dinucleotide:tuple",       2, "word",        << <<"kappa", R(3,1)>> >>, PiDinuc, TRUE, TRUE, "k3"),
+    M("user:Dinucleotide:monomer",     2, "monomer",     << <<"kappa", R(3,1)>> >>, Pi1(1,2,3,4), TRUE, TRUE, "k3"),
+    M("user:Dinucleotide:conditional", 2, "conditional", << <<"kappa", R(3,1)>> >>, PiDinuc, TRUE, TRUE, "k3")
+>>
+AllInstances == NucInstances \o CodonInstances \o DinucInstances
+QuickInstances == NucInstances \o <<CodonInstances[1], CodonInstances[3], CodonInstances[5]>> \o DinucInstances
 CnfOnly == <<CodonInstances[5]>>
 CnfGtrOnly == <<CodonInstances[6]>>
 =============================================================================
